@@ -355,3 +355,43 @@ def run(P: Program, R: Report, tier: str) -> None:
     R.check(starts, "R15.3", c, c.node, "the result contains the selection itself", "", via="syntax")
     removes = [x for x in ast.walk(c.node) if isinstance(x, ast.Call) and call_name(x) in ("remove", "discard", "difference_update", "pop", "clear", "difference", "intersection", "intersection_update")]
     R.check(not removes, "R15.3", c, removes[0] if removes else c.node, "nothing is removed from the closed set", "", via="syntax")
+    exporters_keep_no_memo(P, R, "R15.5")
+
+
+def exporters_keep_no_memo(P: Program, R: Report, rule: str) -> None:
+    """An export is a function of the CURRENT tracks and the selection.  A module-level container that export code
+    fills and reads back (a cache of the position-split graph, of closures, ...) makes the output depend on an earlier
+    export: after an edit that the cache's validity test does not notice, nodes are written with stale edges."""
+    mods = {f.module.name: f.module for f in P.functions.values() if ".import_export." in f.qname and ("export" in f.qname or f.name == CLOSURE)}
+    n = 0
+    for mod in mods.values():
+        containers = {}
+        for s_ in mod.tree.body:
+            tg = s_.targets[0] if isinstance(s_, ast.Assign) and len(s_.targets) == 1 else (s_.target if isinstance(s_, ast.AnnAssign) else None)
+            v = getattr(s_, "value", None)
+            if isinstance(tg, ast.Name) and v is not None and (isinstance(v, (ast.Dict, ast.List, ast.Set)) or (
+                    isinstance(v, ast.Call) and (call_name(v) or "") in ("dict", "list", "set", "defaultdict", "WeakKeyDictionary", "WeakValueDictionary", "OrderedDict", "lru_cache"))):
+                containers[tg.id] = s_
+        for fn in [f for f in P.functions.values() if f.module is mod]:
+            for x in ast.walk(fn.node):
+                name = None
+                if isinstance(x, (ast.Assign, ast.AugAssign)):
+                    for t in (x.targets if isinstance(x, ast.Assign) else [x.target]):
+                        if isinstance(t, ast.Subscript) and isinstance(t.value, ast.Name) and t.value.id in containers:
+                            name = t.value.id
+                if isinstance(x, ast.Call) and isinstance(x.func, ast.Attribute) and isinstance(x.func.value, ast.Name) and x.func.value.id in containers and x.func.attr in (
+                        "append", "add", "update", "setdefault", "extend", "__setitem__"):
+                    name = x.func.value.id
+                if isinstance(x, ast.Global) and any(g_ in containers for g_ in x.names):
+                    name = next(g_ for g_ in x.names if g_ in containers)
+                if name:
+                    n += 1
+                    R.fail(rule, fn, x, f"{fn.short} keeps no state between exports",
+                           f"`{norm(x)[:70]}` fills the module-level `{name}`: a later export can be answered from what an earlier one stored "
+                           "(stale edges / nodes after an edit the cache does not notice)")
+            for d in fn.node.decorator_list:
+                if "cache" in norm(d):
+                    n += 1
+                    R.fail(rule, fn, d, f"{fn.short} keeps no state between exports", f"decorated with `{norm(d)}`: results are reused across edits")
+    if n == 0:
+        R.ok(rule, "import_export", "", "the export modules keep no module-level memo", via="effects")
